@@ -25,7 +25,7 @@ TAG_KEY = {
     'a2ml-unparsed': 'a2ml-include-unmerged-when-a2ml-unparseable',
     'a2ml-trailing-blank': 'a2ml-include-at-block-end-trailing-whitespace',
 }
-IGNORED_TAGS = {'reload-text'}      # equal model, different text (comments of an include file): outside the statement
+IGNORED_TAGS = {'reload-text'}      # equal model, different text: the text fixpoint is the statement of C01 (checks/c01.py include_stage)
 
 
 def resolve_table(files, main):
@@ -192,8 +192,8 @@ def check(tier, seed):
                          'A2ML blocks with /include inside are compared on the implementation only',
                          'checks/inclib.py (splitter, flattener, oracle) and the harness kinds INCL / LOADINC'],
     })
-    v.assumptions = ['equality is the library\'s == (layout and comments are not compared); that comments of an include file are written '
-                     'again into the main file on every save is recorded in DESIGN.md, it does not change the model']
+    v.assumptions = ['equality is the library\'s == (layout and comments are not compared); the text of the save cycle over include files '
+                     'is checked under C01 (include save cycle)']
     reported, seen = 0, set()
     for i, key, why in failures:
         if key in known:
